@@ -456,7 +456,7 @@ Section Nested.
 
   Lemma if_step : forall D dom ins outs attrs subs ss Dn,
     wf_if rename rm NN wsub D dom ins outs attrs subs = Some Dn ->
-    emit_if rename rm [] esub ins outs attrs subs = Some ss ->
+    emit_if rename None rm [] esub ins outs attrs subs = Some ss ->
     node_corr D Dn (Node dom "If" ins outs attrs subs) ss /\ Dn = (outs ++ D)%list /\ (forall o, In o outs -> o <> "" /\ In o NN).
   Proof.
     intros D dom ins outs attrs subs ss Dn Hw He.
@@ -626,7 +626,7 @@ Section Nested.
 
   Lemma while_step : forall D dom ins outs attrs subs ss Dn,
     wf_loop rename rm NN wsub D dom ins outs attrs subs = Some Dn ->
-    emit_loop rename infun rm esub ins outs attrs subs = Some ss ->
+    emit_loop rename infun None rm [] esub ins outs attrs subs = Some ss ->
     node_corr D Dn (Node dom "Loop" ins outs attrs subs) ss /\ Dn = (outs ++ D)%list /\ (forall o, In o outs -> o <> "" /\ In o NN).
   Proof.
     intros D dom ins outs attrs subs ss Dn Hw He.
@@ -670,7 +670,7 @@ Section Nested.
     rewrite (map_tv_tr fins Hne_fins) in *. rewrite (map_tv_tr outs Hne_outs) in *. rewrite (map_tv_tr fouts Q15) in *.
     rewrite (tv_tr cout Q16) in *. rewrite Etvo in *.
     (* the emitted statements *)
-    unfold emit_loop in He.
+    unfold emit_loop in He. cbn [assigns_n assigns_o src_o src_n] in He.
     destruct (loop_form_of (None :: Some c :: actual) (Graph (iv :: cin :: fins) [] nsb (cout :: fouts))) as [[| | |]|] eqn:Ef; try discriminate Q3.
     cbn [g_ins g_outs] in He. unfold esub in He. cbn [g_inits g_nodes is_nil] in He.
     destruct (elist nsb) as [sb|] eqn:Eel; [|discriminate].
@@ -762,7 +762,7 @@ Section Nested.
     apply lookup_app_other. rewrite Hb. intros C. destruct (HD x Hx) as [_ Hne]. destruct (Houts x C Hne) as [H1 _]. contradiction.
   Qed.
 
-  Notation en := (emit_node_with kw rename infun false false rm [] esub).
+  Notation en := (emit_node_with kw rename infun None None rm [] esub).
   Notation wn := (wf_node kw rename rm NN wsub).
 
   Lemma any_step : forall D n ss Dn, wn D n = Some Dn -> en n = Some ss ->
@@ -810,20 +810,20 @@ Section Nested.
   Notation eval_graph := (eval_graph V sem truth trip of_nat of_bool limit).
 
   Theorem nodes_corr : forall d ns D Dfin ss fp' fg',
-    emit_nodes kw rename infun false false rm [] (S d) ns = Some ss ->
+    emit_nodes kw rename infun None None rm [] (S d) ns = Some ss ->
     wf_cf kw rename rm NN (S d) D ns = Some Dfin ->
     d <= fp' -> d <= fg' ->
     corr (eval_body (eval_graph fg')) (S fp') D Dfin ns ss.
   Proof.
     induction d as [|d IH]; intros ns D Dfin ss fp' fg' He Hw Hp Hg.
     - cbn [emit_nodes] in He. cbn [wf_cf] in Hw.
-      apply (list_corr fp' (eval_graph fg') (emit_nodes kw rename infun false false rm [] 0) (wf_cf kw rename rm NN 0)); [|exact Hw|exact He].
+      apply (list_corr fp' (eval_graph fg') (emit_nodes kw rename infun None None rm [] 0) (wf_cf kw rename rm NN 0)); [|exact Hw|exact He].
       intros D0 ns0 sb Db H0. cbn [emit_nodes] in H0. discriminate H0.
     - destruct fp' as [|fp'']; [lia|]. destruct fg' as [|fg'']; [lia|].
-      change (emit_nodes kw rename infun false false rm [] (S (S d)) ns)
-        with (emit_all (emit_node_with kw rename infun false false rm [] (esub (emit_nodes kw rename infun false false rm [] (S d)))) ns) in He.
+      change (emit_nodes kw rename infun None None rm [] (S (S d)) ns)
+        with (emit_all (emit_node_with kw rename infun None None rm [] (esub (emit_nodes kw rename infun None None rm [] (S d)))) ns) in He.
       change (wf_cf kw rename rm NN (S (S d)) D ns) with (wf_list kw rename rm NN (wf_cf kw rename rm NN (S d)) D ns) in Hw.
-      apply (list_corr (S fp'') (eval_graph (S fg'')) (emit_nodes kw rename infun false false rm [] (S d)) (wf_cf kw rename rm NN (S d))); [|exact Hw|exact He].
+      apply (list_corr (S fp'') (eval_graph (S fg'')) (emit_nodes kw rename infun None None rm [] (S d)) (wf_cf kw rename rm NN (S d))); [|exact Hw|exact He].
       intros D0 ns0 sb Db H0 H1. apply (IH ns0 D0 Db sb fp'' fg'' H0 H1); lia.
   Qed.
 End Nested.
@@ -845,7 +845,7 @@ Section MainCF.
   Variable infun : bool.
 
   Theorem export_cf_sound : forall fname ivals g f sk,
-    export_cf kw prename rename infun false false false fname ivals g = Some (f, sk) ->
+    export_cf kw prename rename infun None None false fname ivals g = Some (f, sk) ->
     nested_okb kw prename rename infun ivals g = true ->
     forall fp fg xs, depth_graph g <= S fp -> depth_graph g <= S fg ->
       eval_script V sem truth trip of_nat limit globals (S (S fp)) f xs =
@@ -856,7 +856,7 @@ Section MainCF.
   Proof.
     intros fname ivals g f sk He Hok fp fg xs Hfp Hfg.
     unfold nested_okb in Hok. unfold export_cf in He.
-    destruct (scan rename infun false false ivals g) as [rm consts] eqn:Esc. cbn [fst snd] in Hok.
+    destruct (scan rename infun None false ivals g) as [rm consts] eqn:Esc. cbn [fst snd] in Hok.
     set (NN := nested_names rm g) in *. set (t := tr rename rm) in *.
     apply andb_true_iff in Hok; destruct Hok as [Hok K10]. apply andb_true_iff in Hok; destruct Hok as [Hok K9].
     apply andb_true_iff in Hok; destruct Hok as [Hok K8]. apply andb_true_iff in Hok; destruct Hok as [Hok K7].
@@ -864,11 +864,11 @@ Section MainCF.
     apply andb_true_iff in Hok; destruct Hok as [Hok K4]. apply andb_true_iff in Hok; destruct Hok as [Hok K3].
     apply andb_true_iff in Hok; destruct Hok as [Hok K2]. apply andb_true_iff in Hok; destruct Hok as [K0 K1].
     destruct consts; [|discriminate K0]. clear K0.
-    assert (Hinit_eq : emit_all (emit_init_cf kw rename false false rm) ivals = emit_all (emit_init kw t) ivals).
+    assert (Hinit_eq : emit_all (emit_init_cf kw rename None false rm) ivals = emit_all (emit_init kw t) ivals).
     { apply emit_all_ext. intros iv. reflexivity. }
     rewrite Hinit_eq in He. clear Hinit_eq.
     destruct (emit_all (emit_init kw t) ivals) as [si|] eqn:Ei; [|discriminate].
-    destruct (emit_nodes kw rename infun false false rm [] (depth_graph g) (g_nodes g)) as [sn|] eqn:En; [|discriminate].
+    destruct (emit_nodes kw rename infun None None rm [] (depth_graph g) (g_nodes g)) as [sn|] eqn:En; [|discriminate].
     inversion He; subst f sk. clear He.
     assert (tr_inj : forall a b, In a NN -> In b NN -> a <> "" -> b <> "" -> t a = t b -> a = b).
     { intros a b Ha Hb _ _ E. exact (nodupb_map_inj t NN K4 a b Ha Hb E). }
@@ -972,7 +972,7 @@ Definition f_nested : func :=
         SReturn [EVar "y"]] |}.
 Theorem export_nested_example :
   nested_okb kwlist (cleanup kwlist) (cleanup kwlist) false iv_nested g_nested = true /\
-  export_cf kwlist (cleanup kwlist) (cleanup kwlist) false false false false "g" iv_nested g_nested = Some (f_nested, []) /\
+  export_cf kwlist (cleanup kwlist) (cleanup kwlist) false None None false "g" iv_nested g_nested = Some (f_nested, []) /\
   zscript2 f_nested [(-3)%Z] = Some [94%Z] /\ zscript2 f_nested [5%Z] = Some [(-10)%Z] /\
   option_map (fun outer => zgraph2 outer g_nested [(-3)%Z]) (init_env Z zsem2 iv_nested) = Some (Some [94%Z]) /\
   option_map (fun outer => zgraph2 outer g_nested [5%Z]) (init_env Z zsem2 iv_nested) = Some (Some [(-10)%Z]).
@@ -985,6 +985,29 @@ Definition g_powneg : graph :=
     [Node "" "Constant" [] ["m2"] [("value", ATensor 7 [] [254%Z; 255%Z; 255%Z; 255%Z; 255%Z; 255%Z; 255%Z; 255%Z])] [];
      Node "" "Pow" [Some "m2"; Some "x"] ["y"] [] []] ["y"].
 Theorem export_pow_negative_base_refuted :
-  exists f, export_cf kwlist (cleanup kwlist) (cleanup kwlist) false true true false "g" [] g_powneg = Some (f, []) /\
+  exists f, export_cf kwlist (cleanup kwlist) (cleanup kwlist) false (Some false) (Some as_read_fx) false "g" [] g_powneg = Some (f, []) /\
             f_body f = [SAssign "y" (EUn "USub" (EBin "Pow" (ELit (LInt 2%Z)) (EVar "x"))); SReturn [EVar "y"]].
+Proof. eexists. split; vm_compute; reflexivity. Qed.
+
+(* ---- repair variants of the option paths (proposed_fixes C13_11, C13_05): as read / repaired --------------------- *)
+Theorem export_pow_negative_base_repaired :
+  exists f, export_cf kwlist (cleanup kwlist) (cleanup kwlist) false (Some true) (Some as_read_fx) false "g" [] g_powneg = Some (f, []) /\
+            f_body f = [SAssign "y" (EBin "Pow" (ELit (LInt (-2)%Z)) (EVar "x")); SReturn [EVar "y"]].
+Proof. eexists. split; vm_compute; reflexivity. Qed.
+
+(* inline_const: a Constant that is a graph output is dropped; as read the `return` names the dropped variable (which no
+   statement binds), with C13_05 it returns the literal *)
+Definition g_const_out : graph :=
+  Graph ["x"] []
+    [Node "" "Neg" [Some "x"] ["t"] [] [];
+     Node "" "Constant" [] ["c"] [("value", ATensor 7 [] [3%Z; 0%Z; 0%Z; 0%Z; 0%Z; 0%Z; 0%Z; 0%Z])] []] ["t"; "c"].
+Definition repaired_fx : inline_fx := {| fx_finite := true; fx_nonempty := true; fx_src_ref := true; fx_init_raw := true |}.
+Theorem export_inlined_source_refuted :
+  exists f, export_cf kwlist (cleanup kwlist) (cleanup kwlist) false None (Some as_read_fx) false "g" [] g_const_out = Some (f, []) /\
+            f_body f = [SAssign "t" (ECall (COp "Neg") [Some (EVar "x")] []); SReturn [EVar "t"; EVar "c"]] /\
+            zscript f [1%Z] = None.
+Proof. eexists. repeat split; vm_compute; reflexivity. Qed.
+Theorem export_inlined_source_repaired :
+  exists f, export_cf kwlist (cleanup kwlist) (cleanup kwlist) false None (Some repaired_fx) false "g" [] g_const_out = Some (f, []) /\
+            f_body f = [SAssign "t" (ECall (COp "Neg") [Some (EVar "x")] []); SReturn [EVar "t"; ELit (LInt 3%Z)]].
 Proof. eexists. split; vm_compute; reflexivity. Qed.
